@@ -100,6 +100,14 @@ def oracle_min(case):
     edges, nodes = tuple(map(tuple, case["edges"])), tuple(case["nodes"])
     starts, ends = tuple(case["starts"]), tuple(case["ends"])
     G = _build(edges, nodes)
+    if case.get("cert"):
+        # a large curated instance: the minimum is certified by hand - ONE explicit source-to-sink walk covering every edge (no cover is smaller than 1)
+        w = list(case["cert"])
+        E = set(edges)
+        srcs = set(starts) | {v for v in G if G.in_degree(v) == 0}
+        snks = set(ends) | {v for v in G if G.out_degree(v) == 0}
+        assert w[0] in srcs and w[-1] in snks and all((a, b) in E for a, b in zip(w, w[1:])) and set(zip(w, w[1:])) == E, "bad certificate"
+        return 1, [], sorted(E), [], 1.0, None
     if case["cyc"]:
         R = [dict.fromkeys(s, 1) for s in walk_routes(edges, nodes, starts, ends)]
     else:
@@ -404,6 +412,24 @@ def cases(tier):
                 continue
             for c in _cyclic_family(ed, (), (), gi % (18 if quick else 1) == 0, gi):
                 yield c
+    # node names that look like generated auxiliary names ('z1', 'z2', ...): a width / cover computed through an auxiliary network must not confuse them
+    ZN = ("z1", "z2", "z3", "z4", "z5")
+    for n in (3, 4):
+        for gi, G in enumerate(graphs.dags(n, ZN)):
+            if gi % (5 if quick else 2) != 1:
+                continue
+            for c in _kinds(False, list(G.edges()), ks=(0,), width=True):
+                yield c
+    # one walk must traverse a bottleneck edge more often than the graph has nodes (13 times, 11 nodes): c->d, d->a_i, a_i->b_j complete 3x4, b_j->c
+    A_, B_ = ["a1", "a2", "a3"], ["b1", "b2", "b3", "b4"]
+    big = [("c", "d")] + [("d", a) for a in A_] + [(a, b) for a in A_ for b in B_] + [(b, "c") for b in B_]
+    cert = []
+    for a in A_:
+        for b in B_:
+            cert += ["c", "d", a, b]
+    cert += ["c", "d"]
+    yield _case("min", True, big, starts=["c"], ends=["d"], cert=cert)
+    yield _case("k", True, big, starts=["c"], ends=["d"], cert=cert, dk=0)
     # curated cyclic specials: the D16 witness shape, the docs' example
     d16 = [("x", "y"), ("y", "z"), ("z", "y"), ("z", "w")]
     for c in _kinds(True, d16, ks=(0, -1, 1), width=True):
@@ -487,9 +513,9 @@ def check(case):
     opt, R, req, cons, cov, lengths = oracle_min(case)
     if not req:
         return dict(ok=None, nontrivial=False, what="no non-ignored element: outside the property's domain")
-    if case["cyc"] and not in_domain_cyclic(edges, nodes, tuple(case["starts"]), tuple(case["ends"])):
+    if case["cyc"] and not case.get("cert") and not in_domain_cyclic(edges, nodes, tuple(case["starts"]), tuple(case["ends"])):
         return dict(ok=None, nontrivial=False, what="some edge lies on no source-to-sink walk: outside the property's domain")
-    if case["cyc"] and case["cover"] == "edge" and len(edges) <= 5:
+    if case["cyc"] and case["cover"] == "edge" and len(edges) <= 5 and not case.get("cert"):
         R2 = [dict(r) for r in capped_walks(edges, nodes, tuple(case["starts"]), tuple(case["ends"]), 3)]
         opt2 = O.min_cover(R2, req, cons, cov, lengths, kmax=8)
         if opt2 != opt:
